@@ -2622,7 +2622,7 @@ pub fn run_check<F: Fn(&str, &Config) -> Outcome + Sync>(a: &vhcore::Args, oracl
         serde_json::to_string_pretty(&classes).unwrap_or_default(),
     );
     for (key, (n, text, cname, what, human, origin)) in &viol {
-        let what_txt = format!("{human} [{n} cases; smallest: {origin}, {what}, config {cname}]");
+        let what_txt = format!("{human} [{n} cases; smallest: {origin}, {what}, config {cname}]").replace('\n', "⏎");
         rep.violation(
             key,
             &what_txt,
